@@ -3,7 +3,7 @@ C38 — lemmas for the capstone theorem (core Lean only): reading a filtered Raw
 against what `IndexState = equal` guarantees.
 -/
 import ZoektModel.C38.Lemmas
-import ZoektModel.C38.HashLemmas
+import ZoektModel.C38.QuoteLemmas
 namespace ZoektModel.C38
 
 theorem mapGet_filter_nonskipped (m : List (String × String)) (k : String) (hk : k ∉ skippedKeys) :
